@@ -418,6 +418,8 @@ pub async fn build_segment_stream(
                 }
             }
         }
+        #[cfg(sneldb_verif)]
+        crate::verif::step("read.segments_done", "");
     }));
 
     let mut final_schema = Arc::clone(&schema);
